@@ -859,4 +859,123 @@ theorem round_fin (x : Nat) (q : ℚ) (r : Int) (hx : IsFin x q) (hq : |q - r| <
     apply hex a 0 hr (by norm_num)
     rw [haq]; simp
 
+/-! ### G. error analysis of `((r/S − O) + O)·S` -/
+
+theorem eta_le : eta ≤ 1 / 2 ^ 80 := by
+  unfold eta
+  have : (2 : ℚ) ^ (-1075 : Int) ≤ (2 : ℚ) ^ (-80 : Int) := zpow_le_zpow_right₀ (by norm_num) (by norm_num)
+  have e : (2 : ℚ) ^ (-80 : Int) = 1 / 2 ^ 80 := by
+    rw [zpow_neg, show ((80 : Int)) = ((80 : Nat) : Int) by norm_num, zpow_natCast]; simp
+  exact le_trans this (le_of_eq e)
+
+/-- a rounding does not enlarge a bounded value by much -/
+theorem near_bound (q z Z : ℚ) (h : Near q z) (hz : |z| ≤ Z) : |q| ≤ Z + Z / 2 ^ 53 + 1 / 2 ^ 80 := by
+  have h1 := h.1
+  have he := eta_le
+  have : |q| ≤ |q - z| + |z| := by
+    have := abs_add_le (q - z) z; simpa using this
+  have hzz : |z| / 2 ^ 53 ≤ Z / 2 ^ 53 := by gcongr
+  linarith
+
+/-- the error analysis of `((r/S − O) + O)·S` with four roundings, scaled by `S` -/
+theorem chain_bound (r S O q1 q2 q3 q4 : ℚ) (hr : |r| ≤ 2 ^ 49) (hS : 1 / 2 ≤ S) (hS' : S ≤ 2 ^ 17)
+    (hO : |O| ≤ 2 ^ 10)
+    (h1 : Near q1 (r / S)) (h2 : Near q2 (q1 - O)) (h3 : Near q3 (q2 + O)) (h4 : Near q4 (q3 * S)) :
+    |q4 - r| < 1 / 2 := by
+  have hSpos : 0 < S := by linarith
+  have he := eta_le
+  have heS : eta * S ≤ 1 / 2 ^ 63 := by
+    have : eta * S ≤ 1 / 2 ^ 80 * 2 ^ 17 := by
+      have h0 : 0 ≤ eta := by unfold eta; positivity
+      exact mul_le_mul he hS' (by linarith) (by norm_num)
+    have e : (1 : ℚ) / 2 ^ 80 * 2 ^ 17 = 1 / 2 ^ 63 := by norm_num
+    linarith
+  set c := O * S with hc
+  have hcb : |c| ≤ 2 ^ 27 := by
+    rw [hc, abs_mul, abs_of_pos hSpos]
+    calc |O| * S ≤ 2 ^ 10 * 2 ^ 17 := mul_le_mul hO hS' (by linarith) (by norm_num)
+      _ = 2 ^ 27 := by norm_num
+  -- scaled errors
+  have d1 : |q1 * S - r| ≤ |r| / 2 ^ 53 + 1 / 2 ^ 63 := by
+    have := h1.1
+    have e : q1 * S - r = (q1 - r / S) * S := by field_simp
+    rw [e, abs_mul, abs_of_pos hSpos]
+    have e2 : |r / S| * S = |r| := by rw [abs_div, abs_of_pos hSpos]; field_simp
+    calc |q1 - r / S| * S ≤ (|r / S| / 2 ^ 53 + eta) * S := by gcongr
+      _ = |r / S| * S / 2 ^ 53 + eta * S := by ring
+      _ ≤ |r| / 2 ^ 53 + 1 / 2 ^ 63 := by rw [e2]; linarith
+  have d2 : |q2 * S - (q1 * S - c)| ≤ |q1 * S - c| / 2 ^ 53 + 1 / 2 ^ 63 := by
+    have := h2.1
+    have e : q2 * S - (q1 * S - c) = (q2 - (q1 - O)) * S := by rw [hc]; ring
+    rw [e, abs_mul, abs_of_pos hSpos]
+    have e2 : |q1 - O| * S = |q1 * S - c| := by
+      rw [hc, ← abs_of_pos hSpos, ← abs_mul, abs_of_pos hSpos]; congr 1; ring
+    calc |q2 - (q1 - O)| * S ≤ (|q1 - O| / 2 ^ 53 + eta) * S := by gcongr
+      _ = |q1 - O| * S / 2 ^ 53 + eta * S := by ring
+      _ ≤ |q1 * S - c| / 2 ^ 53 + 1 / 2 ^ 63 := by rw [e2]; linarith
+  have d3 : |q3 * S - (q2 * S + c)| ≤ |q2 * S + c| / 2 ^ 53 + 1 / 2 ^ 63 := by
+    have := h3.1
+    have e : q3 * S - (q2 * S + c) = (q3 - (q2 + O)) * S := by rw [hc]; ring
+    rw [e, abs_mul, abs_of_pos hSpos]
+    have e2 : |q2 + O| * S = |q2 * S + c| := by
+      rw [hc, ← abs_of_pos hSpos, ← abs_mul, abs_of_pos hSpos]; congr 1; ring
+    calc |q3 - (q2 + O)| * S ≤ (|q2 + O| / 2 ^ 53 + eta) * S := by gcongr
+      _ = |q2 + O| * S / 2 ^ 53 + eta * S := by ring
+      _ ≤ |q2 * S + c| / 2 ^ 53 + 1 / 2 ^ 63 := by rw [e2]; linarith
+  have d4 : |q4 - q3 * S| ≤ |q3 * S| / 2 ^ 53 + 1 / 2 ^ 63 := by
+    have := h4.1
+    have : eta ≤ 1 / 2 ^ 63 := by
+      have : (1 : ℚ) / 2 ^ 80 ≤ 1 / 2 ^ 63 := by norm_num
+      linarith
+    linarith
+  -- triangle inequalities
+  set y1 := q1 * S
+  set y2 := q2 * S
+  set y3 := q3 * S
+  have t2 : |y1 - c| ≤ |y1 - r| + |r| + |c| := by
+    have := abs_add_three (y1 - r) r (-c)
+    rw [abs_neg] at this
+    calc |y1 - c| = |y1 - r + r + -c| := by congr 1; ring
+      _ ≤ _ := this
+  have t3 : |y2 + c| ≤ |y2 - (y1 - c)| + |y1 - r| + |r| := by
+    have := abs_add_three (y2 - (y1 - c)) (y1 - r) r
+    calc |y2 + c| = |y2 - (y1 - c) + (y1 - r) + r| := by congr 1; ring
+      _ ≤ _ := this
+  have t4 : |y3| ≤ |y3 - (y2 + c)| + |y2 + c| := by
+    have := abs_add_le (y3 - (y2 + c)) (y2 + c); simpa using this
+  have t5 : |q4 - r| ≤ |q4 - y3| + |y3 - (y2 + c)| + |y2 - (y1 - c)| + |y1 - r| := by
+    have a := abs_add_three (q4 - y3) (y3 - (y2 + c)) (y2 - (y1 - c) + (y1 - r))
+    have b := abs_add_le (y2 - (y1 - c)) (y1 - r)
+    calc |q4 - r| = |q4 - y3 + (y3 - (y2 + c)) + (y2 - (y1 - c) + (y1 - r))| := by congr 1; ring
+      _ ≤ |q4 - y3| + |y3 - (y2 + c)| + |y2 - (y1 - c) + (y1 - r)| := a
+      _ ≤ _ := by linarith
+  have n1 : (0 : ℚ) ≤ |r| := abs_nonneg _
+  have hp53 : (0 : ℚ) < 2 ^ 53 := by norm_num
+  -- everything is linear from here
+  have e1 : |y1 - r| ≤ 2 ^ 49 / 2 ^ 53 + 1 / 2 ^ 63 := by
+    have : |r| / 2 ^ 53 ≤ 2 ^ 49 / 2 ^ 53 := by gcongr
+    linarith
+  have A2 : |y1 - c| ≤ 2 ^ 49 + 2 ^ 27 + 1 := by
+    have : (2 : ℚ) ^ 49 / 2 ^ 53 + 1 / 2 ^ 63 ≤ 1 := by norm_num
+    linarith
+  have e2 : |y2 - (y1 - c)| ≤ (2 ^ 49 + 2 ^ 27 + 1) / 2 ^ 53 + 1 / 2 ^ 63 := by
+    have : |y1 - c| / 2 ^ 53 ≤ (2 ^ 49 + 2 ^ 27 + 1) / 2 ^ 53 := by gcongr
+    linarith
+  have A3 : |y2 + c| ≤ 2 ^ 49 + 2 := by
+    have : ((2 : ℚ) ^ 49 + 2 ^ 27 + 1) / 2 ^ 53 + 1 / 2 ^ 63 ≤ 1 := by norm_num
+    have : (2 : ℚ) ^ 49 / 2 ^ 53 + 1 / 2 ^ 63 ≤ 1 := by norm_num
+    linarith
+  have e3 : |y3 - (y2 + c)| ≤ (2 ^ 49 + 2) / 2 ^ 53 + 1 / 2 ^ 63 := by
+    have : |y2 + c| / 2 ^ 53 ≤ (2 ^ 49 + 2) / 2 ^ 53 := by gcongr
+    linarith
+  have A4 : |y3| ≤ 2 ^ 49 + 3 := by
+    have : ((2 : ℚ) ^ 49 + 2) / 2 ^ 53 + 1 / 2 ^ 63 ≤ 1 := by norm_num
+    linarith
+  have e4 : |q4 - y3| ≤ (2 ^ 49 + 3) / 2 ^ 53 + 1 / 2 ^ 63 := by
+    have : |y3| / 2 ^ 53 ≤ (2 ^ 49 + 3) / 2 ^ 53 := by gcongr
+    linarith
+  have fin : (2 ^ 49 + 3) / 2 ^ 53 + 1 / 2 ^ 63 + ((2 ^ 49 + 2) / 2 ^ 53 + 1 / 2 ^ 63)
+      + ((2 ^ 49 + 2 ^ 27 + 1) / 2 ^ 53 + 1 / 2 ^ 63) + ((2 : ℚ) ^ 49 / 2 ^ 53 + 1 / 2 ^ 63) < 1 / 2 := by norm_num
+  linarith
+
 end Fit.F64
